@@ -24,7 +24,7 @@ type GenCfg struct {
 	// whether a constructor takes them is the constructor's decision, not the generator's
 }
 
-var cmdPool = []string{"/", "/foo", "/foo/bar", "/crud/create", "/a/b/c/d", "/é/x", "/msg/send"}
+var cmdPool = []string{"/", "/foo", "/foo/bar", "/crud/create", "/a/b/c/d", "/é/x", "/msg/send", "/a&b/<c>", "/sp ace/x", "/q\"uote", "/a\u2028b", "/tab\t", "/a//b", "/."}
 
 var AbsTimes = []int64{-62135596800, 253402300799, 10413792000, 32503680000, -11676096000, (1 << 53) - 1, 1 << 53, (1 << 53) + 1, -((1 << 53) - 1), -(1 << 53), 1 << 60, 1900000000, 4102444800, 0, 1}
 var offs = []int64{3600, 86400, 365 * 86400, 100 * 365 * 86400}
@@ -63,7 +63,7 @@ func genTime(t *rapid.T, cfg GenCfg, label string, future bool) *TimeSpec {
 	return &TimeSpec{V: o}
 }
 
-var kvKeys = []string{"a", "b", "aa", "x", "foo", "é", "with space", "A", "key-1", "d.e", "zz", "n"}
+var kvKeys = []string{"a", "b", "aa", "x", "foo", "é", "with space", "A", "key-1", "d.e", "zz", "n", "<k&>", "k\u2028", " k", "k\t", "\"q\"", "k\x00", "~"}
 
 func genKVs(t *rapid.T, cfg GenCfg, label string, max int) []KVal {
 	n := rapid.IntRange(0, max).Draw(t, label+"_n")
